@@ -17,9 +17,11 @@ import (
 	"os"
 	"runtime"
 	"runtime/debug"
+	"sort"
 	"strings"
 	"syscall"
 	"time"
+	"unsafe"
 
 	"github.com/bytedance/sonic"
 	"github.com/bytedance/sonic/ast"
@@ -254,37 +256,122 @@ type decTarget struct {
 	MI map[string]interface{} `json:"mi"`
 }
 
+// destinations that keep the text they are handed (sonic's own types): with Unmarshal([]byte) that text must be sonic's
+// private copy of the input, never the caller's buffer
+type decKeep struct {
+	Node ast.Node               `json:"node"`
+	NC   sonic.NoCopyRawMessage `json:"nc"`
+	PN   *ast.Node              `json:"pn"`
+	MN   map[string]ast.Node    `json:"mn"`
+}
+
+// the documents of the stream scenario into destinations that keep the text they are handed
+type streamKeep struct {
+	S  ast.Node               `json:"s"`
+	R  sonic.NoCopyRawMessage `json:"r"`
+	I  *ast.Node              `json:"i"`
+	MI map[string]ast.Node    `json:"mi"`
+}
+
+func (k *streamKeep) show() string {
+	a, _ := k.S.Raw()
+	c := ""
+	if k.I != nil {
+		c, _ = k.I.Raw()
+	}
+	var ks []string
+	for key, n := range k.MI {
+		r, _ := n.Raw()
+		ks = append(ks, key+"="+r)
+	}
+	sort.Strings(ks)
+	return a + " | " + string(k.R) + " | " + c + " | " + strings.Join(ks, ",")
+}
+
 func poolDecodeSide() []poolBad {
 	var bads []poolBad
-	doc := `{"s":"plain string value","m":{"key one":"value one"},"a":["x1","escaped \n y2"],"r":{"raw":[1,2,"three"]},"n":12345.5,"i":["iface string",{"k":"v"}],"mi":{"q":"w"}}`
-	for _, cfgName := range []string{"default", "std", "copystring"} {
-		cfg := sonic.ConfigDefault
-		switch cfgName {
-		case "std":
-			cfg = sonic.ConfigStd
-		case "copystring":
-			cfg = sonic.Config{CopyString: true}.Froze()
+	doc := `{"s":"plain string value","m":{"key one":"value one"},"a":["x1","escaped \n y2"],"r":{"raw":[1,2,"three"]},"n":12345.5,"i":["iface string",{"k":"v"},1234567,[7654321.5]],"mi":{"q":"w","num":424242}}`
+	keep := `{"node":{"id":12345678,"item":"keyboard"},"nc":[1,"two",{"three":3}],"pn":"pointer to node","mn":{"k":[10,20]}}`
+	type decCfg struct {
+		name string
+		cfg  sonic.API
+		copy bool
+	}
+	var cfgs []decCfg
+	for _, un := range []bool{false, true} {
+		sfx := ""
+		if un {
+			sfx = "+usenumber"
 		}
+		std := sonic.Config{EscapeHTML: true, SortMapKeys: true, CompactMarshaler: true, CopyString: true, ValidateString: true, UseNumber: un}
+		cfgs = append(cfgs, decCfg{"default" + sfx, sonic.Config{UseNumber: un}.Froze(), false}, decCfg{"std" + sfx, std.Froze(), true},
+			decCfg{"copystring" + sfx, sonic.Config{CopyString: true, UseNumber: un}.Froze(), true})
+	}
+	cfgs = append(cfgs, decCfg{"copystring+useint64", sonic.Config{CopyString: true, UseInt64: true}.Froze(), true})
+	scribble := func(b []byte) {
+		for i := range b {
+			b[i] = '9' // stays printable: an aliasing value changes instead of becoming unmarshalable
+		}
+	}
+	showKeep := func(k *decKeep) string {
+		a, _ := k.Node.Raw()
+		c := ""
+		if k.PN != nil {
+			c, _ = k.PN.Raw()
+		}
+		d := ""
+		for _, kk := range []string{"k"} {
+			n := k.MN[kk]
+			d, _ = n.Raw()
+		}
+		return a + " | " + string(k.NC) + " | " + c + " | " + d
+	}
+	for _, dc := range cfgs {
+		// Unmarshal([]byte): nothing may alias the caller's buffer, whatever the destination
 		buf := []byte(doc)
 		var t decTarget
-		if err := cfg.Unmarshal(buf, &t); err != nil {
+		if err := dc.cfg.Unmarshal(buf, &t); err != nil {
 			bads = append(bads, poolBad{Kind: "wrong_result", Det: "Unmarshal: " + err.Error(), Sig: "decode_error"})
 			continue
 		}
 		snap, _ := json.Marshal(t)
-		for i := range buf {
-			buf[i] = 0xFF
-		}
+		scribble(buf)
 		after, _ := json.Marshal(t)
 		if !bytes.Equal(snap, after) {
-			bads = append(bads, poolBad{Kind: "decoded_value_aliases_input", Det: fmt.Sprintf("config %s: %s -> %s", cfgName, trunc(snap), trunc(after)), Sig: "decode_alias|" + cfgName})
+			bads = append(bads, poolBad{Kind: "decoded_value_aliases_input", Det: fmt.Sprintf("Unmarshal([]byte), config %s: %s -> %s", dc.name, trunc(snap), trunc(after)), Sig: "decode_alias|" + dc.name})
+		}
+		kb := []byte(keep)
+		var k decKeep
+		if err := dc.cfg.Unmarshal(kb, &k); err != nil {
+			bads = append(bads, poolBad{Kind: "wrong_result", Det: "Unmarshal (source-keeping destinations): " + err.Error(), Sig: "decode_error_keep"})
+		} else {
+			s1 := showKeep(&k)
+			scribble(kb)
+			if s2 := showKeep(&k); s1 != s2 {
+				bads = append(bads, poolBad{Kind: "decoded_value_aliases_input", Sig: "decode_alias_keep|" + dc.name,
+					Det: fmt.Sprintf("Unmarshal([]byte) into ast.Node / NoCopyRawMessage destinations, config %s: %s -> %s", dc.name, trunc([]byte(s1)), trunc([]byte(s2)))})
+			}
+		}
+		// with CopyString the same holds for a string input (here: a string view of a buffer the caller reuses)
+		if dc.copy {
+			vb := []byte(doc)
+			var t2 decTarget
+			if err := dc.cfg.UnmarshalFromString(unsafe.String(&vb[0], len(vb)), &t2); err == nil {
+				snap, _ := json.Marshal(t2)
+				scribble(vb)
+				after, _ := json.Marshal(t2)
+				if !bytes.Equal(snap, after) {
+					bads = append(bads, poolBad{Kind: "decoded_value_aliases_input", Sig: "decode_alias_copystring|" + dc.name,
+						Det: fmt.Sprintf("UnmarshalFromString with CopyString, config %s: %s -> %s", dc.name, trunc(snap), trunc(after))})
+				}
+			}
 		}
 	}
 	// stream decoders: every value returned by Decode must survive the following Decode calls, which reuse, compact and
 	// refill the read buffer; each document arrives in its own Read; option sets of the decoder x destination kinds
 	for _, cfgName := range []string{"default", "std", "copystring"} {
 		for _, useNumber := range []bool{false, true} {
-			for _, dest := range []string{"iface", "typed"} {
+			for _, dest := range []string{"iface", "typed", "keep"} {
 				cfg := sonic.ConfigDefault
 				switch cfgName {
 				case "std":
@@ -308,6 +395,8 @@ func poolDecodeSide() []poolBad {
 					var v interface{}
 					if dest == "typed" {
 						v = &decTarget{}
+					} else if dest == "keep" {
+						v = &streamKeep{}
 					} else {
 						v = new(interface{})
 					}
@@ -316,10 +405,16 @@ func poolDecodeSide() []poolBad {
 						break
 					}
 					b, _ := json.Marshal(v)
+					if sk, ok := v.(*streamKeep); ok {
+						b = []byte(sk.show())
+					}
 					vals = append(vals, v)
 					snaps = append(snaps, string(b))
 					for j := 0; j < k; j++ {
 						now, _ := json.Marshal(vals[j])
+						if sk, ok := vals[j].(*streamKeep); ok {
+							now = []byte(sk.show())
+						}
 						if string(now) != snaps[j] {
 							bads = append(bads, poolBad{Kind: "decoded_value_aliases_input", Sig: "stream_alias|" + cfgName + "|" + dest,
 								Det: fmt.Sprintf("stream decoder (%s, UseNumber=%v, %s destination): value %d changed after Decode %d: %s -> %s", cfgName, useNumber, dest, j, k, trunc([]byte(snaps[j])), trunc(now))})
